@@ -1,4 +1,4 @@
-import MxlVerif.Lemmas.C12JacFn
+import MxlVerif.Lemmas.C12Closure2
 import MxlVerif.Model.C12Witness
 namespace Mxl.C12
 
@@ -117,6 +117,24 @@ theorem C12_jacfn_sound (sc : SContent) (hwf : sc.wf = true) (t : Rat) (xs : Lis
     ∃ cache es, createCache sc.toContent = .ok cache ∧ toSymbolic sc = .ok es ∧
       J = (jacobianOf es cache.varNames).map fun row => row.map (evalS (symEnv sc cache xs)) :=
   jacfn_sound sc hwf t xs J h
+
+/-- **the installed closure follows later parameter updates** (after `fix: recompile the Jacobian when
+    parameter values have changed …`, F-C12-4).  Install the closure on `c`; let the model's content be
+    `now` when the integrator calls it.  If `now` is still `c`, or the tuple of parameter values differs
+    from the one compiled for (every `update_parameter` / `scale_parameter` that changes a value), the
+    call returns what a closure freshly installed on `now` returns — hence, by `C12_jacfn_sound`, `D` of
+    `now`'s equations at `now`'s parameter values, including parameter-only derived quantities and
+    computed coefficients that are baked into the compiled matrix.  (A structural edit of the model
+    that leaves every parameter value unchanged is outside: the closure does not notice it.) -/
+theorem C12_closure_follows_parameters (c now : SContent) (hwf : now.wf = true) (cl cl' : JacClosure)
+    (t : Rat) (xs : List Rat) (J : List (List Rat)) (hi : installJac c = some cl)
+    (hcase : now = c ∨ ∀ vn pn values, jacArgs now = .ok (vn, pn, values) → values ≠ cl.vals)
+    (hcall : cl.call now t xs = .ok (cl', J)) :
+    callJac now t xs = .ok (some J) ∧
+    ∃ cache es, createCache now.toContent = .ok cache ∧ toSymbolic now = .ok es ∧
+      J = (jacobianOf es cache.varNames).map fun row => row.map (evalS (symEnv now cache xs)) := by
+  have h := closure_follows c now cl cl' t xs J hi hcase hcall
+  exact ⟨h, jacfn_sound now hwf t xs J h⟩
 
 /-- the equations mention only variable symbols, plain-parameter symbols and data symbols (never
     `time`, a reaction, a derived quantity or a library function's own argument name) -/
